@@ -36,11 +36,17 @@ def run(ctx, idx):
     ctx.rule("C06.c", "FuzzySelectedUnion: after the ascending layer sort the Truest branch averages TopK(NumberToConsider), the Falsest branch BottomK(NumberToConsider); NumberToConsider is checked against the number of inputs before use.")
     ctx.rule("C06.d", "FuzzyXOr reads exactly the two truest layers of the sorted stack and guards the quotient whose divisor is Top(1) - FUZZY_MIN with a test Top(1) <= FUZZY_MIN selecting the constant FUZZY_MIN.")
     res = {d.cls.name: (d, r) for d, r in R.results(idx).values() if d.module.name.endswith("eems.fuzzy")}
+    ctx.rule("C06.e", "Missing cells combine as the definitions require: the result is missing wherever any input is (the returned mask covers every input's mask).")
     for name in OPERATORS:
         if name not in res:
             raise AnalysisError("fuzzy operator %s vanished" % name)
         d, r = res[name]
         R.uses_all_inputs(ctx, "C06.a", d, r)
+        for n, s, v in R.ret_sites(d, r):
+            if isinstance(v, Arr):
+                miss = R.input_tokens(d) - v.M
+                ctx.ob("C06.e", R.ret_key(d, n) + "::union-of-masks", d.module.rel, R.line_of(s), not miss, "mask covers every input" if not miss else
+                       "a cell missing in %s only comes out present: the operator then combines fewer inputs than its definition says (e.g. the k truest of the remaining layers)" % R.tok_text(miss))
         R.symmetric_roles(ctx, "C06.b", d, r)
     # C06.c
     d, r = res["FuzzySelectedUnion"]
